@@ -30,8 +30,25 @@ def streams(rng, tier, ctx):
                 # packets of more than 64 (and more than 128) fragments, cut across many flushes with acknowledgements of
                 # the early fragments arriving in between
                 cfg["allocA"] = cfg["allocB"] = 1_000_000; cfg["bwA"] = cfg["bwB"] = r.pick([2_000_000, 20_000_000])
+            burst = (i % 8 == 7)
+            if burst:
+                # one Reliable packet followed, in the same tick, by a burst of small packets that crosses the encoding thresholds of
+                # the parent-lead fields (window parent lead 127/128/129, channel parent lead 255/256/257) while it is unacknowledged
+                cfg["pw"] = 4096; cfg["fw"] = 4096; cfg["allocA"] = cfg["allocB"] = 1_000_000; cfg["bwA"] = cfg["bwB"] = 20_000_000
             sim = Sim(r, cfg, inter=it)
             lat = r.pick([0, 1_000_000, 20_000_000, 150_000_000]) if not big else r.pick([0, 1_000_000, 5_000_000])
+            if burst:
+                lat = r.pick([5_000_000, 20_000_000])
+                def warm(sim, ep):
+                    if ep == "A" and sim.tick < 50:
+                        for _ in range(3):
+                            sim.send("A", r.below(3), r.pick([1, 3]), 1000)
+                sim.run(80, 5_000_000, Net(latency=lat), Net(latency=lat), warm)
+                T = r.pick([127, 128, 128, 129, 255, 256, 257])
+                ch = r.below(3)
+                sim.send("A", ch, 3, 10)
+                for k in range(T + 5):
+                    sim.send("A", ch if (T < 200 or k % 2 == 0) else (ch + 1) % 3, r.pick([1, 1, 2]), r.range(3, 60))
             net = Net(latency=lat)
             dt = r.pick([250_000, 1_000_000, 5_000_000, 16_000_000, 100_000_000])
             both = r.chance(1, 2)
